@@ -9,6 +9,8 @@ Theorems are for EVERY multigraph without self-loops (parallel links, dead ends,
 -/
 import WntrModel.Lemmas.Segments
 import WntrModel.Lemmas.SegmentsComp
+import WntrModel.Lemmas.SegmentsShape
+import WntrModel.Gen.SegmentsShape
 import Mathlib.Tactic.FieldSimp
 import Mathlib.Tactic.Ring
 import Mathlib.Tactic.Linarith
@@ -165,3 +167,55 @@ namespace Wntr.Segments
 by the unvalved parallel link 2) -/
 example : compChecked exInp = some [0, 1, 1, 3] := by decide
 end Wntr.Segments
+
+/-! ### the generated statement skeleton -/
+namespace Wntr.Segments.Shape
+
+/-- **generated_segments_shape_is_ref**: the skeleton of `valve_segments` / `_valve_criticality*` that the `ast` translator reads off
+the CURRENT source (de-duplication, setup, the five labelling passes with their guards and statements in order, the valved-link
+definition, the final assembly, the attribute formulas) is the reference skeleton.  An edit to those functions fails HERE. -/
+theorem generated_segments_shape_is_ref : Gen.segShape = refShape := by decide
+
+/-- **generated_labels_are_model**: executing the generated skeleton the way Python does (running `seg_index`, in-place
+`seg_label`) gives no exception and exactly the closed-form labels the other theorems of this file are about -/
+theorem generated_labels_are_model (i : Inp) (hv : i.valid = true) (comp : Nat → Nat) (ncomp : Nat)
+    (hc : ∀ u, u < i.n → comp u < ncomp) :
+    (interp Gen.segShape i comp ncomp).raised = false ∧
+    (∀ u, u < i.n → (interp Gen.segShape i comp ncomp).lab u = i.nodeLabel comp u) ∧
+    (∀ k, k < i.nl → (interp Gen.segShape i comp ncomp).lab (i.n + k) = i.linkLabel comp k) := by
+  rw [generated_segments_shape_is_ref]
+  exact interp_ref_is_model i hv comp ncomp hc
+
+/-- hence the partition statement holds of the labels the interpreted generated skeleton computes, with the concrete components function -/
+theorem generated_labels_partition (i : Inp) (hv : i.valid = true) (lab : List Nat) (h : compChecked i = some lab) (ncomp : Nat)
+    (hc : ∀ u, u < i.n → lab.getD u 0 < ncomp) (a b : Vtx) (ha : InG i a) (hb : InG i b) :
+    let pos : Vtx → Nat := fun v => match v with | .node u => u | .link k => i.n + k
+    (interp Gen.segShape i (fun u => lab.getD u 0) ncomp).lab (pos a) = (interp Gen.segShape i (fun u => lab.getD u 0) ncomp).lab (pos b)
+      ↔ Wntr.Segments.SameSeg i a b := by
+  intro pos
+  obtain ⟨_, hn, hl⟩ := generated_labels_are_model i hv (fun u => lab.getD u 0) ncomp hc
+  have hpos : ∀ v, InG i v → (interp Gen.segShape i (fun u => lab.getD u 0) ncomp).lab (pos v) = label i (fun u => lab.getD u 0) v := by
+    intro v hvv
+    cases v with
+    | node u => exact hn u hvv
+    | link k => exact hl k hvv
+  rw [hpos a ha, hpos b hb]
+  exact labels_partition_concrete i hv lab h a b ha hb
+
+/-- the attribute formulas of the generated skeleton are `numSurround`, `demandIncrease`, `lengthIncrease` -/
+theorem generated_attributes_are_model (rows : List (Nat × (Nat × Nat))) (n nl : Nat) (nlab llab : Nat → Nat) (dem len : Nat → Rat) (r : Nat × Nat) :
+    interpNumSurround Gen.segShape.attrs rows nlab llab r = some (numSurround rows nlab llab r) ∧
+    interpDemand Gen.segShape.attrs n nlab llab dem r = some (demandIncrease n nlab llab dem r) ∧
+    interpLength Gen.segShape.attrs nl nlab llab len r = some (lengthIncrease nl nlab llab len r) := by
+  rw [generated_segments_shape_is_ref]
+  exact ⟨interp_numSurround_ref rows nlab llab r, interp_demand_ref n nlab llab dem r, interp_length_ref nl nlab llab len r⟩
+
+/-- non-vacuity: the interpreter run on the example of this file (component ids 0, 1, 1, 3 -> numbering 0, 1, 1, 2) -/
+example : let s := interp refShape exInp (fun u => [0, 1, 1, 2].getD u 0) 3
+    s.raised = false ∧ (List.range 4).map s.lab = [2, 3, 3, 4] ∧ (List.range 4).map (fun k => s.lab (4 + k)) = [2, 1, 3, 3] := by
+  decide
+
+/-- an edited skeleton is not the reference: taking the SECOND node in the unvalved pass / `len(V_list)` without the -1 -/
+example : ({ refShape with attrs := { refShape.attrs with count := .len } } : SegShape) ≠ refShape := by decide
+
+end Wntr.Segments.Shape
